@@ -50,8 +50,18 @@ class C07:
             tk = rng.choice(G.COMPAT[sk])
             if tk in ('LensTmatrix',):
                 tk = 'Tmatrix'
-            pairs.append((sk, tk, G.draw_scatterer(rng, sk, ext),
-                          G.draw_theory(rng, tk)))
+            th = G.draw_theory(rng, tk)
+            if th is not None and tk in ('MieLens', 'AberratedMieLens'):
+                # accuracy knobs that *lower* the accuracy below the
+                # documented default make values depend on the point set at
+                # the level of the interpolation error; keep the defaults
+                acc = th[1]['options'].get('calculator_accuracy_kwargs')
+                if acc:
+                    acc.pop('interpolator_degree', None)
+                    acc.pop('interpolator_window_size', None)
+                    if acc.get('quad_npts', 100) < 100:
+                        acc['quad_npts'] = 100
+            pairs.append((sk, tk, G.draw_scatterer(rng, sk, ext), th))
         need_x = any(tk in G.NEEDS_X_POL or
                      (tk == 'auto' and sk in ('spheroid', 'cylinder'))
                      for sk, tk, _, _ in pairs)
@@ -330,6 +340,9 @@ class C07:
             else:
                 scale = max(1.0, float(np.max(np.abs(r))))
                 worst = max(worst, float(np.max(np.abs(a - r))) / scale)
+        if not bitwise:
+            mx = ex.stats.setdefault('maxerr', {})
+            mx['lens_' + route] = max(mx.get('lens_' + route, 0.0), worst)
         if not bitwise and worst > 1e-9:
             ex.add(violation(
                 'C07.value', ev['id'],
